@@ -301,6 +301,13 @@ func getter(v *V, a string) (*V, bool) {
 		if v.S == "PtO" && a == "y" {
 			return vSym("ovr"), true // PtO overrides the getter
 		}
+		if a == "tag" && classIsA(v.S, "Pt") {
+			// a method-defined getter, overridden in PtO
+			if v.S == "PtO" {
+				return vSym("pto"), true
+			}
+			return vSym("pt"), true
+		}
 		d := classByName(v.S)
 		for i, n := range d.Attrs {
 			if n == a {
